@@ -301,8 +301,9 @@ class Machine:
 
     def _power_multiple(self, lights) -> None:
         power = self._reg.get_power()
+        duration = self._as_raw_time(self._reg.duration)
         for light in lights:
-            light.set_power(power, self._reg.duration)
+            light.set_power(power, duration)
 
     @inject(LightSet)
     def _get_color(self, light_set) -> None:
